@@ -2172,6 +2172,14 @@ func (c *Conn) handleRecordContent(
 
 		return isLatestSeqNum, packetOutcome{receivedACK: &protocol.ACK{Records: records}}, nil
 	case *alert.Alert:
+		if prepared.header.Epoch == 0 && dtlsstate.CommonState(c.state).RemoteEpoch() != 0 {
+			// The peer protects everything it sends since we accepted its change
+			// of epoch. An unprotected alert after that point is not the peer's:
+			// anyone who can reach the socket could otherwise close the session.
+			c.log.Debugf("discarded unprotected alert: %s", content.String())
+
+			return false, packetOutcome{}, nil
+		}
 		c.log.Tracef("%s: <- %s", srvCliStr(dtlsstate.CommonState(c.state).IsClient), content.String())
 		var responseAlert *alert.Alert
 		if content.Description == alert.CloseNotify {
